@@ -52,6 +52,8 @@ class Interp:
         self.returns: list[Shape] = []
         self.ranges: dict[str, tuple[float, float]] = {}  # numeric ranges established by `if <out of range>: raise` guards
         self.calls: list[tuple[ast.Call, dict[str, Shape]]] = []  # from_attrs call sites with the env at that point
+        self.decimal: list[tuple[FuncInfo, ast.FormattedValue]] = []  # `{x:02d}` segments whose value is not proven <= 9
+        self.hexfmt = 0  # `{x:02X}`-style segments seen
 
     # -- statements -------------------------------------------------------------------------
 
@@ -248,10 +250,16 @@ class Interp:
         m = re.fullmatch(r"0?(\d+)X", spec)
         if m:
             w = int(m.group(1))
+            self.hexfmt += 1
             r = self._range(p.value)
             if r is not None and r[0] >= 0 and r[1] - r[0] <= 4096 and r[1] < 16**w:
                 return Alt(*[Lit(f"{v:0{w}X}") for v in range(int(r[0]), int(r[1]) + 1)])
             return Hex(w)  # exact modulo the codec's representable range (C04.R5's job)
+        m = re.fullmatch(r"0?(\d*)d", spec)
+        if m:
+            r = self._range(p.value)
+            if not (r is not None and 0 <= r[0] and r[1] <= 9):
+                self.decimal.append((self.f, p))
         m = re.fullmatch(r"0(\d+)d", spec)
         if m:
             return Rep(Shape("set", syms=DIGITS), int(m.group(1)), int(m.group(1)))
@@ -293,6 +301,8 @@ class Interp:
                     return Unknown(f"call of {c.short}")
                 sub = Interp(self.ctx, c, self.depth + 1)
                 sub.run()
+                self.decimal += sub.decimal
+                self.hexfmt += sub.hexfmt
                 if not sub.returns:
                     return Unknown(f"{c.short} has no return expression")
                 shapes += sub.returns
@@ -339,6 +349,7 @@ def shape_rule(ctx: Ctx) -> RuleResult:
     idx_rootcause: dict[str, list[str]] = {}
     idx_sig: list[str] = []
     n_regex = 0
+    n_hexfmt = 0
     for code, row in schema.items():
         for verb in (" I", "RQ", "RP", " W"):
             if verb in row:
@@ -354,7 +365,50 @@ def shape_rule(ctx: Ctx) -> RuleResult:
             continue
         it = Interp(ctx, m)
         it.run()
-        for call, env in it.calls:
+        calls = list(it.calls)
+        for call, env in calls:  # the payload expressions themselves (when not bound to a local first)
+            nm0 = call.func.attr  # type: ignore[union-attr]
+            pe = (call.args[3] if len(call.args) > 3 else None) if nm0 == "from_attrs" else (call.args[2] if len(call.args) > 2 else None)
+            if pe is not None:
+                it.shape(pe, env)
+        n_hexfmt += it.hexfmt
+        seen_dec: set[int] = set()
+        # only segments that flow into a payload: locals (transitively) used by a payload expression
+        relevant: set[str] = set()
+        pes = []
+        for call, _env in calls:
+            nm0 = call.func.attr  # type: ignore[union-attr]
+            pe = (call.args[3] if len(call.args) > 3 else None) if nm0 == "from_attrs" else (call.args[2] if len(call.args) > 2 else None)
+            if pe is not None:
+                pes.append(pe)
+                relevant |= {n.id for n in ast.walk(pe) if isinstance(n, ast.Name)}
+        for _ in range(6):
+            for st in ast.walk(m.node):
+                if isinstance(st, (ast.Assign, ast.AnnAssign, ast.AugAssign)) and st.value is not None:
+                    tg = st.targets if isinstance(st, ast.Assign) else [st.target]
+                    if any(isinstance(t, ast.Name) and t.id in relevant for t in tg):
+                        relevant |= {n.id for n in ast.walk(st.value) if isinstance(n, ast.Name)}
+        for g, fv in it.decimal:
+            if id(fv) in seen_dec:
+                continue
+            seen_dec.add(id(fv))
+            if g is m:
+                st = fv
+                while st is not None and not isinstance(st, ast.stmt):
+                    st = getattr(st, "parent", None)
+                in_pe = any(fv is n for pe in pes for n in ast.walk(pe))
+                tg = (st.targets if isinstance(st, ast.Assign) else [st.target]) if isinstance(st, (ast.Assign, ast.AnnAssign, ast.AugAssign)) else []
+                if not in_pe and not any(isinstance(t, ast.Name) and t.id in relevant for t in tg):
+                    continue
+            rr.instances += 1
+            rr.nontrivial += 1
+            rr.fail(
+                f"Command.{name}:decimal-field:{norm(fv)[:60]}",
+                g.loc(fv),
+                f"Command.{name} formats a payload field in decimal ({norm(fv)}): payload octets are hexadecimal and every decoder reads them with int(x, 16), "
+                "so any value above 9 is transmitted as a different number",
+            )
+        for call, env in calls:
             v_expr = call.args[0] if call.args else None
             nm = call.func.attr  # type: ignore[union-attr]
             c_expr = (call.args[2] if len(call.args) > 2 else None) if nm == "from_attrs" else (call.args[1] if len(call.args) > 1 else None)
@@ -410,6 +464,9 @@ def shape_rule(ctx: Ctx) -> RuleResult:
             "an out-of-domain index yields a frame the library's own decoder rejects instead of CommandInvalid",
             [f"{k}: {'; '.join(v)}" for k, v in sorted(idx_rootcause.items())][:40],
         )
+    rr.info["hex_formatted_payload_fields"] = n_hexfmt
+    if n_hexfmt < 40:
+        raise AnalysisError(f"only {n_hexfmt} hex-formatted payload fields found in the constructors (expected >= 40): the format-spec scan is not seeing the payload expressions")
     rr.info["undecided"] = undecided[:40]
     rr.info["n_undecided"] = len(undecided)
     return rr
